@@ -75,40 +75,6 @@ def targeted_search(run, proj, d, q, stats):
         c01.judge(run, "C13", proj, text, v, res, stats, [])
 
 
-def overload_cases(rng, proj, kinds):
-    """two declarations with one name and one arity but other parameter kinds, both called in one WHERE"""
-    if len(kinds) < 2:
-        return
-    for _ in range(6):
-        k1, k2 = rng.sample(kinds, 2)
-        q = QG.random_query(rng, kinds=[k1, k2], values=proj.values, n_entities=2, n_preds=0, where=False)
-        (ka, a), (kb, b) = q.from_items
-        name = rng.choice(["ov", "named", "isX", "check"])
-        fa, fb = rng.choice(["m", "n", a, "p1"]), rng.choice(["m", "q", b, "p2"])
-        fa = fa if fa not in (name,) + tuple(kinds) else "m"
-        fb = fb if fb not in (name,) + tuple(kinds) else "m"
-        pa = QG.Pred(name, [(ka, fa)], QG.accessor_atom(rng, fa, ka, proj.values))
-        pb = QG.Pred(name, [(kb, fb)], QG.accessor_atom(rng, fb, kb, proj.values))
-        ca, cb = ("call", name, (a,)), ("call", name, (b,))
-        conds = [QG.mk("and", ca, cb), QG.mk("and", cb, ca), QG.mk("or", ca, cb), QG.mk("and", QG.mk("not", ca), cb),
-                 QG.mk("or", cb, QG.mk("not", ca)), ca, cb]
-        preds2 = None
-        if rng.random() < 0.7:
-            g1, g2 = "u", "w"
-            p2a = QG.Pred(name + "2", [(ka, g1), (kb, g2)], QG.mk("and", QG.accessor_atom(rng, g1, ka, proj.values), QG.accessor_atom(rng, g2, kb, proj.values)))
-            p2b = QG.Pred(name + "2", [(kb, g1), (ka, g2)], QG.mk("or", QG.accessor_atom(rng, g1, kb, proj.values), QG.accessor_atom(rng, g2, ka, proj.values)))
-            preds2 = [p2a, p2b]
-            c2a, c2b = ("call", name + "2", (a, b)), ("call", name + "2", (b, a))
-            conds += [QG.mk("and", c2a, c2b), QG.mk("or", c2b, QG.mk("not", c2a)), QG.mk("and", c2b, ca)]
-        for order in ([pa, pb], [pb, pa]):
-            for c in conds:
-                v = QG.clone(q)
-                v.preds = list(order) + (preds2 or [])
-                v.cond = c
-                QG.flatten(v)
-                yield v
-
-
 def directed_cases(rng, proj, kinds):
     """expansions that are easy to get wrong and that random generation meets only by luck: an argument whose alias is
     spelled like a later formal (renaming must be simultaneous), escaped quotes in a literal of a predicate body or of
@@ -165,7 +131,7 @@ def run(run):
                     rp = h.call(op="replace-predicates", q=text)
                     if rp.get("outcome") == "ok" and res.get("model_outcome") == "ok" and rp["expression"] != res["info"].get("expanded"):
                         mism.append(dict(query=text, real_expansion=rp["expression"], model_expansion=res["info"].get("expanded")))
-                for v in overload_cases(rng, proj, kinds):
+                for v in c01.overload_cases(rng, proj, kinds):
                     text = QG.plain(v)
                     res = E.engine_case(proj, d, text, v)
                     run.count(("overloads", text))
